@@ -382,6 +382,11 @@ class CSetOp(object):
                 return ("call<0",)
             if n in ("set_operation", "copyRemaining"):
                 return self.inline(n, [self.ev(a, env) for a in args])
+            if n in self.tu.funcs and n not in ("initSetIteration", "bucket_merge"):
+                # a helper of the repository: interpret its body with the
+                # parameters bound to the caller's values (cursors and the
+                # result bucket are passed by reference)
+                return self.inline(n, [self.ev(a, env) for a in args])
         if c[0] == "ptr":
             f = self.ev(strip(e.kids[0]), env)
             if isinstance(f, tuple) and f[0] == "next":
